@@ -90,7 +90,7 @@ theorem wide_tail (tm : Mode) (N d : Int) (n : Nat) (hd : 0 < d) (hdu : d ≤ I1
   · have hqf := floor_fits_of_trunc N d hd ht
     simp only [ht, if_true, Option.bind_some]
     rw [cast_u128_nonneg h1 (by omega), cast_u128_nonneg (Int.le_of_lt hd) hdu, roundQuot_none,
-      roundQuot_spec tm tm N d hd hdu hqf]
+      roundQuot_spec tm tm N d hd (by omega) hqf]
     cases hh : fitsI128 (Spec.specRound tm N d)
     · rw [checkedI128_none hh]; exact valFit_none _ _ hh
     · rw [checkedI128_some hh]; exact valFit_some _ _ hh
@@ -106,24 +106,32 @@ theorem wide_tail (tm : Mode) (N d : Int) (n : Nat) (hd : 0 < d) (hdu : d ≤ I1
       simp [hm, hnf, Spec.allowedChecked]
 
 /-- `wide_tail` with the operands of `round_quot` written as magnitudes (`rem.unsigned_abs()`, `divisor.unsigned_abs()`: the form of
-    `i128_shifted_div_rounded` after the D13 repair) -/
-theorem wide_tail_abs (tm : Mode) (N d : Int) (n : Nat) (hd : 0 < d) (hdu : d ≤ I128_MAX) :
+    `i128_shifted_div_rounded` after the D13 repair); the divisor may be `2^127 = |i128::MIN|` -/
+theorem wide_tail_abs (tm : Mode) (N d : Int) (n : Nat) (hd : 0 < d) (hdu : d ≤ I128_MAX + 1) :
     Spec.allowedChecked (Spec.valFit (Spec.specRound tm N d) n)
       (outOptPair (.ok (
         (if (N.natAbs / d.natAbs : Nat) ≤ I128_MAX.toNat then some (N / d, N % d) else none).bind fun qr =>
           (roundQuot tm qr.1 qr.2.natAbs d.natAbs none).map fun c => (⟨c, n⟩ : Dec)))) = true := by
   have h1 := Int.emod_nonneg N (Int.ne_of_gt hd)
-  have key := wide_tail tm N d n hd hdu
-  have ea : (IntTy.u128.cast (N % d)).toNat = (N % d).natAbs := by
-    have h2 := Int.emod_lt_of_pos N hd
-    rw [cast_u128_nonneg h1 (by omega)]; omega
-  have eb : (IntTy.u128.cast d).toNat = d.natAbs := by
-    rw [cast_u128_nonneg (Int.le_of_lt hd) hdu]; omega
+  have h2 := Int.emod_lt_of_pos N hd
   by_cases ht : (N.natAbs / d.natAbs : Nat) ≤ I128_MAX.toNat
-  · simp only [ht, if_true, Option.bind_some] at key ⊢
-    rw [ea, eb] at key
-    exact key
-  · simp only [ht, if_false, Option.bind_none] at key ⊢
-    exact key
+  · have hqf := floor_fits_of_trunc N d hd ht
+    simp only [ht, if_true, Option.bind_some]
+    have ea : (N % d).natAbs = (N % d).toNat := by omega
+    have eb : d.natAbs = d.toNat := by omega
+    rw [ea, eb, roundQuot_none, roundQuot_spec tm tm N d hd hdu hqf]
+    cases hh : fitsI128 (Spec.specRound tm N d)
+    · rw [checkedI128_none hh]; exact valFit_none _ _ hh
+    · rw [checkedI128_some hh]; exact valFit_some _ _ hh
+  · simp only [ht, if_false, Option.bind_none]
+    have := round_unfit_of_trunc tm N d hd ht
+    rw [valFit_eq]
+    by_cases hm : Spec.specRound tm N d = I128_MIN
+    · simp [hm, Spec.allowedChecked]
+    · have hnf : fitsI128 (Spec.specRound tm N d) = false := by
+        cases hh : fitsI128 (Spec.specRound tm N d)
+        · rfl
+        · rw [fitsI128_iff] at hh; omega
+      simp [hm, hnf, Spec.allowedChecked]
 
 end Fpdec
